@@ -1456,7 +1456,7 @@ func c16Worker(c *Ctx) {
 		return
 	}
 	r := NewRng(c.Seed)
-	deadline := c.Start.Add(time.Duration(40*c.Scale) * time.Second)
+	deadline := c.Start.Add(time.Duration(30*c.Scale) * time.Second)
 
 	// CLI cases (run after the boundary cases)
 	var cliCases []*c16Case
